@@ -73,6 +73,10 @@ def s1(ck, an):
     fi = an.fa("PartitionTimeRanges.__init__")
     ck.check(bool(fi.calls_to("PartitionTimeRanges.verify_start_before_end")), "ORD", "S1.folds-verified", fi.f.short, fi.f.loc, "folds are verified at construction", "folds are not verified at construction",
              construct="self.verify_start_before_end()")
+    defs = [s_ for s_ in all_stmts(fi) if isinstance(s_, ast.Assign) and ast.unparse(s_.targets[0]) == "folds"]
+    okd = any(ast.unparse(s_.value) == "{TRAINING_SET: [datetime.min, datetime.max]}" and any(p[0] == "is" and "None" in (p[1], p[2]) and p[3] for p in fi.syntactic_guards(s_)) for s_ in defs)
+    ck.check(okd, "CONST", "S1.default-fold-is-everything", fi.f.short, fi.f.loc, "without folds, the single training fold spans [datetime.min, datetime.max]", "the default fold is not {TRAINING_SET: [datetime.min, datetime.max]}",
+             construct="folds = {TRAINING_SET: [datetime.min, datetime.max]}")
     fg = an.fa("PartitionTimeRanges.__getitem__")
     r = [ast.unparse(x.value) for x in returns_in(fg)]
     ck.check(r == ["self.folds[item]"], "ARGFLOW", "S1.fold-lookup", fg.f.short, fg.f.loc, "folds are looked up by name", f"__getitem__ returns {r}", construct="return self.folds[item]")
